@@ -3,7 +3,7 @@ EXTENDS EndToEnd, Json
 NoNext == FALSE /\ UNCHANGED vars
 EmitScn == pc = "start" => PrintT(<<"SCN", ToJson([prog |-> prog])>>)
 Behs == {"echo", "typed", "typednull", "unreg", "exc"}
-Args == {"none", "pos", "named"}
+Args == {"none", "pos", "named", "posdict"}
 Cl(b, a, n) == [beh |-> b, args |-> a, notif |-> n]
 P(nt, cs, ig, st, ck, dk) == [notation |-> nt, calls |-> cs, idgen |-> ig, strict |-> st, ck |-> ck, dk |-> dk]
 IdGens == {"sequential", "sequential0", "randint", "random", "uuid", "empty_string"}   \* sequential0: ids 0, 1, ..; empty_string: the id ""
@@ -12,7 +12,7 @@ DKinds == {"sync", "async", "async_plain"}     \* async_plain: the asynchronous 
 Combos == {<<"sequential", TRUE, "sync", "sync">>, <<"random", TRUE, "async", "async">>,
            <<"randint", FALSE, "sync", "async">>, <<"uuid", TRUE, "async", "sync">>, <<"sequential0", TRUE, "sync", "async_plain">>}
 CallsFull  == {Cl(b, a, n) : b \in Behs, a \in Args, n \in BOOLEAN}
-CallsSmall == {Cl("echo", "pos", FALSE), Cl("echo", "named", FALSE), Cl("typed", "none", FALSE), Cl("exc", "pos", FALSE),
+CallsSmall == {Cl("echo", "posdict", FALSE), Cl("echo", "pos", FALSE), Cl("echo", "named", FALSE), Cl("typed", "none", FALSE), Cl("exc", "pos", FALSE),
                Cl("echo", "pos", TRUE), Cl("exc", "none", TRUE)}
 AllowedIn(nt, c) == CASE nt = "batch_proxy"   -> ~c.notif
                       [] nt = "batch_getitem" -> ~c.notif /\ c.args # "named"
